@@ -44,6 +44,10 @@ pub struct Plan {
     /// false: opener -> acceptor; true (bidi only): acceptor -> opener
     pub back: bool,
     pub case: Case,
+    /// 0: the reader uses read(); n > 0: read_exact() with buffers of n bytes (a reset / end
+    /// of stream then lands while a call is parked with a partly filled buffer)
+    #[serde(default)]
+    pub read_exact_chunk: usize,
 }
 
 const CODES: [u64; 10] = [0, 1, 63, 64, 16383, 16384, (1 << 30) - 1, 1 << 30, (1 << 62) - 2, (1 << 62) - 1];
@@ -70,7 +74,8 @@ pub fn gen_plan(seed: u64, index: usize, faulty: bool) -> Plan {
         3 => Case::FinishPartition { len: *rng.pick(&[0usize, 1, 1000, 20_000]), block_data: rng.coin() },
         _ => Case::FinishReissued { len: *rng.pick(&[0usize, 1, 1000, 20_000]), block_data: rng.coin(), via: rng.below(2) as u8 },
     };
-    Plan { seed, rt, net, opener_is_client: rng.coin(), bidi, back: bidi && rng.coin(), case }
+    let read_exact_chunk = if rng.chance_pm(400) { *rng.pick(&[1usize, 7, 150, 1500, 4000, 100_000]) } else { 0 };
+    Plan { seed, rt, net, opener_is_client: rng.coin(), bidi, back: bidi && rng.coin(), case, read_exact_chunk }
 }
 
 #[derive(Debug, Default)]
@@ -83,9 +88,9 @@ struct Observed {
     notes: Vec<String>,
 }
 
-async fn read_to_end(recv: &mut RecvStream, obs: &Arc<Mutex<Observed>>, limit: Option<usize>) -> bool {
+async fn read_to_end(recv: &mut RecvStream, obs: &Arc<Mutex<Observed>>, limit: Option<usize>, exact_chunk: usize) -> bool {
     // returns true if `limit` bytes were read without reaching the end
-    let mut buf = vec![0u8; 1500];
+    let mut buf = vec![0u8; if exact_chunk > 0 { exact_chunk } else { 1500 }];
     loop {
         if let Some(l) = limit {
             if obs.lock().unwrap().reader_bytes.len() >= l {
@@ -96,6 +101,26 @@ async fn read_to_end(recv: &mut RecvStream, obs: &Arc<Mutex<Observed>>, limit: O
             Some(l) => (l - obs.lock().unwrap().reader_bytes.len()).min(buf.len()).max(1),
             None => buf.len(),
         };
+        if exact_chunk > 0 {
+            use wtransport::error::StreamReadExactError as X;
+            match recv.read_exact(&mut buf[..want]).await {
+                Ok(()) => obs.lock().unwrap().reader_bytes.extend_from_slice(&buf[..want]),
+                Err(X::FinishedEarly(n)) => {
+                    let mut o = obs.lock().unwrap();
+                    o.reader_bytes.extend_from_slice(&buf[..n.min(want)]);
+                    if n > want {
+                        o.notes.push(format!("read_exact FinishedEarly({n}) on a {want}-byte buffer"));
+                    }
+                    o.reader_end = Some(Ok(()));
+                    return false;
+                }
+                Err(X::Read(e)) => {
+                    obs.lock().unwrap().reader_end = Some(Err(e));
+                    return false;
+                }
+            }
+            continue;
+        }
         match recv.read(&mut buf[..want]).await {
             Ok(Some(n)) => obs.lock().unwrap().reader_bytes.extend_from_slice(&buf[..n]),
             Ok(None) => {
@@ -151,13 +176,14 @@ pub fn execute(plan: &Plan, trace: bool) -> Exec {
         }
         let obs: Arc<Mutex<Observed>> = Arc::new(Mutex::new(Observed::default()));
         let writer_is_client = plan.opener_is_client != plan.back;
+        let rx = plan.read_exact_chunk;
         let (wsock, rsock) = if writer_is_client { (pair.client_sock.clone(), pair.server_sock.clone()) } else { (pair.server_sock.clone(), pair.client_sock.clone()) };
         match plan.case.clone() {
             Case::Reset { pre, finish_first, settle_before_reset, code } => {
                 let data = pattern(plan.seed, pre);
                 let o2 = obs.clone();
                 let rt = tokio::spawn(async move {
-                    read_to_end(&mut reader, &o2, None).await;
+                    read_to_end(&mut reader, &o2, None, rx).await;
                 });
                 if pre > 0 {
                     // bounded: with pre > the flow-control window the write waits for the reader, which is reading
@@ -182,7 +208,7 @@ pub fn execute(plan: &Plan, trace: bool) -> Exec {
                 let data = pattern(plan.seed, total);
                 let o2 = obs.clone();
                 let rt = tokio::spawn(async move {
-                    let more = read_to_end(&mut reader, &o2, Some(after)).await;
+                    let more = read_to_end(&mut reader, &o2, Some(after), rx).await;
                     if more || after == 0 {
                         reader.stop(VarInt::try_from_u64(code).unwrap());
                         o2.lock().unwrap().notes.push("stopped".into());
@@ -224,7 +250,7 @@ pub fn execute(plan: &Plan, trace: bool) -> Exec {
                 let data = pattern(plan.seed, len);
                 let o2 = obs.clone();
                 let rt = tokio::spawn(async move {
-                    read_to_end(&mut reader, &o2, None).await;
+                    read_to_end(&mut reader, &o2, None, rx).await;
                 });
                 if let Err(e) = writer.write_all(&data).await {
                     obs.lock().unwrap().writer_errors.push(("write_all".into(), e));
@@ -245,7 +271,7 @@ pub fn execute(plan: &Plan, trace: bool) -> Exec {
                 let data = pattern(plan.seed, len);
                 let o2 = obs.clone();
                 let rt = tokio::spawn(async move {
-                    read_to_end(&mut reader, &o2, None).await;
+                    read_to_end(&mut reader, &o2, None, rx).await;
                 });
                 net.quiesce(Duration::from_millis(20), Duration::from_secs(5)).await;
                 if block_data {
@@ -292,7 +318,7 @@ pub fn execute(plan: &Plan, trace: bool) -> Exec {
                 let data = pattern(plan.seed, len);
                 let o2 = obs.clone();
                 let rt = tokio::spawn(async move {
-                    read_to_end(&mut reader, &o2, None).await;
+                    read_to_end(&mut reader, &o2, None, rx).await;
                 });
                 net.quiesce(Duration::from_millis(20), Duration::from_secs(5)).await;
                 if block_data {
@@ -371,6 +397,7 @@ pub fn execute(plan: &Plan, trace: bool) -> Exec {
             }
             let reset_accepted = o.reset_result == Some(true);
             ex.fault("stream_reset_mid_transfer", reset_accepted as u64);
+            ex.probe("reset_while_read_exact_parked", (reset_accepted && plan.read_exact_chunk > *pre) as u64);
             match &o.reader_end {
                 Some(Err(StreamReadError::Reset(c))) if c.into_inner() == *code && reset_accepted => ex.probe("reset_seen", 1),
                 Some(Ok(())) if *finish_first && o.reader_bytes.len() == *pre => ex.probe("finish_won_over_reset", 1),
